@@ -5,7 +5,8 @@ a real adapter showed: the request captured by the scripted server and the value
 
   adp <adapter 0..3> <target> <accept> <content-type> <authorization|n> <request body>
       ( r <status> <ct|n> <body>  |  f <0 refused|1 closed-before-reply|3 garbage-status-line>  |  f 2 <status> <ct|n>
-        |  f 4 <status> <ct|n> <decoded bytes sent before the cut inside a chunk> )
+        |  f 4 <status> <ct|n> <decoded bytes sent before the cut inside a chunk>
+        |  f 5 <status> <ct|n> <body bytes sent after a head announcing an overflowing Content-Length, before the close> )
       `|`  ( n | q <method> <target> <accept list> <content-type list> <authorization list> <body> )
            ( ok <status> <ct|n> <body> | err <HttpClientError variant: Reqwest|Http|Io|Other|..> )
 
@@ -85,6 +86,9 @@ def parse : P Case := do
       | 4 => do
           let st ← nat; let ct ← optBytes; let rec ← bigBytes
           pure (.inr (.truncatedChunked { status := st, contentType := ct } rec))
+      | 5 => do
+          let st ← nat; let ct ← optBytes; let rec ← bigBytes
+          pure (.inr (.overflowLength { status := st, contentType := ct } rec))
       | _ => failure
     else failure : P (WireReply ⊕ Fault))
   bar
@@ -142,6 +146,7 @@ def serverTag : WireReply ⊕ Fault → String
   | .inr (.truncatedBody _) => "f-truncated"
   | .inr (.truncatedChunked _ _) => "f-cut-in-chunk"
   | .inr .garbageStatusLine => "f-garbage"
+  | .inr (.overflowLength _ _) => "f-overflow-length"
 
 /-- request direction: what the model says reaches the wire vs what the server captured -/
 def checkRequest (c : Case) : Option String :=
